@@ -197,6 +197,7 @@ func lockReleaseRule(c *Ctx, rule string, fns []*ssa.Function, floor int, floorW
 // (1) that error is sticky (decoderErrorSticky), and (2) every parser loop that hands the decoder on to further
 // in-repo decoding re-examines LastError on every iteration, before descending, and leaves the loop when it is set.
 func c09DecodeLoops(c *Ctx) {
+	c.Explanation += " (6) the IPP parser loops end through the decoder error: stores to it are non-nil only, and loops that hand the decoder on first leave on LastError."
 	p := c.P
 	decoderErrorSticky(c, "decode-loop-ends")
 	di := p.Iface(decRel, "Decoder")
